@@ -36,14 +36,17 @@ ValidDgram == {c \in DgramCases : /\ (c.side = "server" => ~c.anyPort) /\ (c.wil
 \* early: the other connection already presented the session id (a harmless OPTIONS, answered)
 \* while the session was being set up, before it started to stream
 StealCases == {[kind |-> "steal", how |-> h, state |-> st, method |-> m, early |-> e] :
-                 h \in {"ip", "conn", "ip6"}, st \in States, m \in {"PLAY", "PAUSE", "TEARDOWN", "SETUP", "GET_PARAMETER"},
+                 h \in {"ip", "conn", "ip6"}, st \in States, m \in {"PLAY", "PAUSE", "TEARDOWN", "SETUP", "GET_PARAMETER", "FRAME"},
                  e \in BOOLEAN}
 \* "conn" applies while the session streams over an interleaved connection
 \* "ip6": both addresses are native IPv6 ones (the session is set up over TCP and not streaming yet,
 \* so that only the creator-address rule protects it)
 ValidSteal == {c \in StealCases : /\ (c.how = "conn" => c.state \in {"play", "record"})
                                   /\ (c.early => c.how = "conn")
-                                  /\ (c.how = "ip6" => c.state \in {"prePlay", "preRecord"})}
+                                  /\ (c.how = "ip6" => c.state \in {"prePlay", "preRecord"})
+                                  \* FRAME: instead of a request, interleaved RTP / RTCP frames for the
+                                  \* session's channels are written on the other connection
+                                  /\ (c.method = "FRAME" => c.how = "conn")}
 \* liveness bookkeeping on either side: the server's session timeouts, the client's UDP timeout
 KeepCases == {[kind |-> "keepalive", side |-> "server", src |-> r, state |-> st] : r \in Srcs, st \in {"play", "record"}}
              \cup {[kind |-> "keepalive", side |-> "client", src |-> r, state |-> "play"] : r \in Srcs}
